@@ -4,7 +4,7 @@
    parse_if_range_header, _plain_int, parse_range_header), ETags, decimal rendering.
    C11/Gen.v (regenerated from /repo on every run) is built on top of this file. *)
 From Coq Require Import ZArith.
-From Wz Require Import lib.Bytes.
+From Wz Require Import lib.Bytes C11.GenArith.
 Open Scope N_scope.
 
 (* ------------------------------------------------------------------ exceptions *)
@@ -138,7 +138,8 @@ Definition range_init_ok (rs : list (Z * option Z)) : bool :=
                     | None => true
                     end) rs.
 
-(* the loop body of http.parse_range_header over rng.split(",") ; None = return None *)
+(* the loop body of http.parse_range_header over rng.split(",") ; None = return None.
+   The comparisons, the +1 and the last_end values are the regenerated prh_* functions of C11/GenArith.v *)
 Fixpoint parse_range_items (items : list str) (last_end : Z) (acc : list (Z * option Z))
   : option (list (Z * option Z)) :=
   match items with
@@ -148,27 +149,27 @@ Fixpoint parse_range_items (items : list str) (last_end : Z) (acc : list (Z * op
     match partition1 DASH item with
     | (_, None) => None                                        (* "-" not in item *)
     | ([], Some _) =>                                          (* item.startswith("-") *)
-      if (last_end <? 0)%Z then None
+      if prh_suffix_blocked last_end then None
       else match plain_int item with
            | None => None
-           | Some b => if (b =? 0)%Z then None
-                       else parse_range_items rest (-1)%Z ((b, None) :: acc)
+           | Some b => if prh_suffix_empty b then None
+                       else parse_range_items rest prh_last_end_suffix ((b, None) :: acc)
            end
     | (bs, Some es) =>                                         (* item.split("-", 1) *)
       match plain_int (ustrip bs) with
       | None => None
       | Some b =>
-        if (b <? last_end)%Z || (last_end <? 0)%Z then None
+        if prh_begin_blocked b last_end then None
         else if nonempty (ustrip es) then
           if starts_with [DASH] (ustrip es) then None         (* end_str.startswith("-") *)
           else
           match plain_int (ustrip es) with
           | None => None
-          | Some e0 => let e := (e0 + 1)%Z in
-                       if (b >=? e)%Z then None
-                       else parse_range_items rest e ((b, Some e) :: acc)
+          | Some e0 => let e := prh_end_of e0 in
+                       if prh_empty_range b e then None
+                       else parse_range_items rest (prh_last_end_next (Some e)) ((b, Some e) :: acc)
           end
-        else parse_range_items rest (-1)%Z ((b, None) :: acc)
+        else parse_range_items rest (prh_last_end_next None) ((b, None) :: acc)
       end
     end
   end.
@@ -181,7 +182,7 @@ Definition parse_range_header (value : option str) : res (option range) :=
     match partition1 EQS v with
     | (_, None) => Ok None                                     (* not value or "=" not in value *)
     | (units, Some rng) =>
-      match parse_range_items (split_on COMMA rng) 0%Z [] with
+      match parse_range_items (split_on COMMA rng) prh_last_end_init [] with
       | None => Ok None
       | Some rs => if range_init_ok rs then Ok (Some {| r_units := lower (ustrip units); r_ranges := rs |})
                    else Raise ValueError
